@@ -207,6 +207,9 @@ class C16(Prop):
             return viol + self.check_failed_tables(scn, out, ref, t_fail, 'trials')
         k = fr['k']
         mine = [s for s in rec.solves if not s['backup']]
+        if out.exc is not None and not (ce and isinstance(out.exc, RuntimeError)):
+            # whatever happened inside the solve, run_sim may only leave through RuntimeError, and only with convergence_error=True
+            return [V('failure.raised_unexpected', '%s.%s@%s' % (label, type(out.exc).__name__, out.exc_site), (out.exc_tb or '')[-500:])]
         if len(mine) <= k:
             return [V('determinism.solve_count', label, 'faulted run has %d solves, fault at %d' % (len(mine), k))]
         if mine[k]['t'] != times_of_solve[k]:
